@@ -1,6 +1,7 @@
 (* types of the regenerated table of create_formula (theory/body.py): which formula object every operator builds *)
 Require Import GenPrelude TheoryPrelude.
 Inductive cnt := NOne | NArg.                       (* the count of a prefix operator: 1, or the evaluated first argument *)
+Definition cntv (c : cnt) (n : nat) : nat := match c with NOne => 1 | NArg => n end.
 Inductive fexp :=
   | XRhs | XLhs                                                       (* create_formula(args[-1]) / create_formula(args[0]) *)
   | XPrev (a : fexp) (n : cnt) (weak : bool) | XNext (a : fexp) (n : cnt) (weak : bool)
